@@ -47,8 +47,9 @@ def Sys.counter (s : Sys α) : Nat := s.ts.length - 1
 /-- `__fix_dt_dir(t1, t0)` with `span = t1 - t0` -/
 def fixDir (dt span : α) : α := if signC dt != signC span then -dt else dt
 
-/-- `__alloc_space_steps`: `max(1, min(5000, int(span / dt)))` (finite target) -/
+/-- `__alloc_space_steps`: `max(1, min(5000, int(span / dt)))`, and 10 for an infinite target (`span = ±inf`) -/
 def allocSteps (span dt : α) : Option Nat :=
+  if HasTrunc.isInf span then some 10 else
   (HasTrunc.truncInt (span / dt)).map (fun k => (max 1 (min 5000 k)).toNat)
 
 /-- `OdeSystem.__init__` -/
